@@ -141,6 +141,13 @@ func init() {
 			for _, s := range cor {
 				emit(pid, pol, []byte(s))
 			}
+			// characters whose escaped and raw forms the tokenizer reads differently (CR, NUL, the escaped five),
+			// as references and raw, next to ordinary text, in text and in attribute values
+			for _, s := range []string{"a&#13;b", "x&#xD;&#10;y", "<p>l1&#13;l2</p>", "t&#13;", "&#13;t", "a\rb", "a\r\nb", "a&#0;b", "a\x00b", "q&amp;#13;r",
+				"<p title=\"a&#13;b\">t</p>", "<a href=\"http://x.com/a&#13;b\">t</a>", "&amp;amp;lt; &#38;#60; &lt;b&gt;", "1 &#60; 2 &#62; 0 &#34;q&#34; &#39;s&#39;",
+				"<b>&#x26;#x3c;script&#x26;#x3e;</b>", "caf\u00e9 &eacute; &#233; &#xE9;", "&nbsp;&#160;\u00a0", "&notit; &notin; &amp", "<i>a</i>&#13;<i>b</i>"} {
+				emit(pid, pol, []byte(s))
+			}
 			g := bmx.NewDocGen(c.r, ugcVocabOps())
 			for i := 0; i < c.n/4; i++ {
 				emit(pid, pol, g.Doc(1+c.r.Intn(16)))
@@ -198,11 +205,15 @@ func init() {
 
 	// C15: the four entry points, chunkings, writer kinds, input buffer; cmd tools
 	families["entry"] = func(c *ctx) {
+		forcedMode := -1
 		run := func(pid int, pol *bluemonday.Policy, in []byte) {
 			orig := append([]byte(nil), in...)
 			s := pol.Sanitize(string(in))
 			b := pol.SanitizeBytes(in)
 			mode := c.r.Intn(5)
+			if forcedMode >= 0 {
+				mode = forcedMode
+			}
 			rd := func() io.Reader { return &chunkReader{data: append([]byte(nil), in...), mode: mode, r: c.r} }
 			rbuf := pol.SanitizeReader(rd())
 			var w1 bytes.Buffer
@@ -229,6 +240,28 @@ func init() {
 				}
 				i++
 			}
+		}
+		// single tokens around the sizes an adapter or a tokenizer might buffer by (512 … 64 KiB), with small
+		// tokens before and after them, and inputs that start with a byte order mark or other bytes a layer
+		// in front of the tokenizer might treat specially — under every chunking and both writer kinds
+		{
+			lpid, lpol := c.policy([]*bmx.Op{{Kind: "AE", Names: []string{"h1", "p", "b", "img"}}, {Kind: "AA", Names: []string{"title", "alt"}, Scope: "G"}, {Kind: "AC"}})
+			for _, n := range []int{511, 512, 513, 1024, 4095, 4096, 4097, 8192, 65536, 70000} {
+				long := strings.Repeat("lorem ipsum ", n/12+1)[:n]
+				docs := []string{"<h1>Title</h1><p>" + long + "</p><b>after</b>", "<b>x</b><p title=\"" + long + "\">t</p>y",
+					"<p>a</p><!--" + long + "--><p>b</p>", "s<img alt=\"" + long + "\">" + long + "<b>e</b>"}
+				for di, d := range docs {
+					forcedMode = (di + n) % 5
+					run(lpid, lpol, []byte(d))
+				}
+			}
+			for mode := 0; mode < 5; mode++ {
+				forcedMode = mode
+				for _, d := range []string{"\xef\xbb\xbf<b>bom</b>", "\xef\xbb\xbf", "\xef\xbbx<p>almost</p>", "\xfe\xff<b>x</b>", "\x00<b>nul</b>", "\r\n<p>crlf first</p>\r\n", "<", "&", "&#", "<!", "<!-", "</", "<b", "a\xc3"} {
+					run(lpid, lpol, []byte(d))
+				}
+			}
+			forcedMode = -1
 		}
 		// long inputs cross the tokenizer's 4096-byte buffer
 		pid, pol := c.shipped("@UGC")
@@ -788,6 +821,87 @@ func init() {
 			}
 		}
 	}
+	// directed accumulation: one attribute (and one style property) with a rule in one scope, then a second
+	// rule with another pattern in the same or another scope — over all pairs of scopes, on a base without
+	// raw-text elements so that the accumulation oracle applies
+	directedMono := func(c *ctx) {
+		resrc := []string{`^[a-z]+$`, `^[A-Z]+$`, `^[0-9]+$`}
+		scope := func(o *bmx.Op, k int) {
+			switch k {
+			case 0:
+				o.Scope = "G"
+			case 1:
+				o.Scope, o.ScopeEl = "E", []string{"abbr"}
+			default:
+				o.Scope, o.ScopeRe = "M", bmx.NewRE(`^(abbr|span)$`)
+			}
+		}
+		for s1 := 0; s1 < 3; s1++ {
+			for s2 := 0; s2 < 3; s2++ {
+				for r1 := 0; r1 < 3; r1++ {
+					r2 := (r1 + 1 + (s1+s2)%2) % 3
+					first := &bmx.Op{Kind: "AA", Names: []string{"lang"}, Re: bmx.NewRE(resrc[r1])}
+					scope(first, s1)
+					extra := &bmx.Op{Kind: "AA", Names: []string{"lang"}, Re: bmx.NewRE(resrc[r2])}
+					scope(extra, s2)
+					base := []*bmx.Op{{Kind: "AE", Names: []string{"abbr", "span", "b"}}, first}
+					ida, pa := c.policy(base)
+					idb, pb := c.policy(append(append([]*bmx.Op{}, base...), extra))
+					for _, v := range []string{"abc", "ABC", "42"} {
+						in := []byte("<abbr lang=\"" + v + "\">t</abbr><span lang=\"" + v + "\">u</span><b lang=\"" + v + "\">w</b>")
+						fmt.Fprintf(c.w, "mono %d %d %s %s %s\n", ida, idb, bmx.HexField(in), safeSanitize(pa, in), safeSanitize(pb, in))
+					}
+					// the same for a style property: an enumeration in one scope, a pattern in the other
+					sfirst := &bmx.Op{Kind: "AS", Names: []string{"color"}, Enum: []string{"red", "blue"}}
+					scope(sfirst, s1)
+					sextra := &bmx.Op{Kind: "AS", Names: []string{"color"}, Re: bmx.NewRE(`^#[0-9a-f]{3}$`)}
+					scope(sextra, s2)
+					sbase := []*bmx.Op{{Kind: "AE", Names: []string{"abbr", "span", "b"}}, {Kind: "AA", Names: []string{"style"}, Scope: "G"}, sfirst}
+					if r1 == 1 {
+						sbase[2], sextra = sextra, sfirst
+					}
+					if r1 < 2 {
+						isa, psa := c.policy(sbase)
+						isb, psb := c.policy(append(append([]*bmx.Op{}, sbase...), sextra))
+						for _, v := range []string{"red", "#abc", "green"} {
+							in := []byte("<abbr style=\"color: " + v + "\">t</abbr><span style=\"color: " + v + "\">u</span><b style=\"color: " + v + "\">w</b>")
+							fmt.Fprintf(c.w, "mono %d %d %s %s %s\n", isa, isb, bmx.HexField(in), safeSanitize(psa, in), safeSanitize(psb, in))
+						}
+					}
+				}
+			}
+		}
+	}
+	// a builder call that names several elements / attributes / properties is the same rule set as
+	// one call per name: grouped and split histories must behave alike
+	splitFam := func(c *ctx) {
+		docs := []string{"<abbr lang=\"en\" title=\"t\" dir=\"ltr\">a</abbr><span lang=\"en\" title=\"t\" dir=\"ltr\">s</span><b lang=\"en\" title=\"t\" dir=\"ltr\">b</b>",
+			"<abbr style=\"color: red; width: 1px\">a</abbr><span style=\"color: red; width: 1px\">s</span><b style=\"width: 1px\">b</b>",
+			"<u>skip</u><i>kept</i><x-a lang=\"en\">x</x-a><x-b title=\"t\">y</x-b>"}
+		type pair struct{ grouped, split []*bmx.Op }
+		re := bmx.NewRE(`^x-`)
+		pairs := []pair{
+			{[]*bmx.Op{{Kind: "AA", Names: []string{"lang"}, Scope: "E", ScopeEl: []string{"abbr", "span"}}, {Kind: "AA", Names: []string{"title"}, Scope: "E", ScopeEl: []string{"span"}}},
+				[]*bmx.Op{{Kind: "AA", Names: []string{"lang"}, Scope: "E", ScopeEl: []string{"abbr"}}, {Kind: "AA", Names: []string{"lang"}, Scope: "E", ScopeEl: []string{"span"}}, {Kind: "AA", Names: []string{"title"}, Scope: "E", ScopeEl: []string{"span"}}}},
+			{[]*bmx.Op{{Kind: "AA", Names: []string{"lang", "title"}, Scope: "E", ScopeEl: []string{"abbr", "b"}}, {Kind: "AA", Names: []string{"dir"}, Scope: "E", ScopeEl: []string{"b"}}},
+				[]*bmx.Op{{Kind: "AA", Names: []string{"lang"}, Scope: "E", ScopeEl: []string{"abbr"}}, {Kind: "AA", Names: []string{"title"}, Scope: "E", ScopeEl: []string{"abbr"}}, {Kind: "AA", Names: []string{"title", "lang"}, Scope: "E", ScopeEl: []string{"b"}}, {Kind: "AA", Names: []string{"dir"}, Scope: "E", ScopeEl: []string{"b"}}}},
+			{[]*bmx.Op{{Kind: "AE", Names: []string{"abbr", "span", "b"}}, {Kind: "AA", Names: []string{"lang", "dir"}, Scope: "G"}},
+				[]*bmx.Op{{Kind: "AE", Names: []string{"b"}}, {Kind: "AE", Names: []string{"span"}}, {Kind: "AA", Names: []string{"dir"}, Scope: "G"}, {Kind: "AE", Names: []string{"abbr"}}, {Kind: "AA", Names: []string{"lang"}, Scope: "G"}}},
+			{[]*bmx.Op{{Kind: "AE", Names: []string{"abbr", "span", "b"}}, {Kind: "AA", Names: []string{"style"}, Scope: "G"}, {Kind: "AS", Names: []string{"color", "width"}, Scope: "E", ScopeEl: []string{"abbr", "span"}}, {Kind: "AS", Names: []string{"width"}, Scope: "E", ScopeEl: []string{"b"}}},
+				[]*bmx.Op{{Kind: "AE", Names: []string{"abbr", "span", "b"}}, {Kind: "AA", Names: []string{"style"}, Scope: "G"}, {Kind: "AS", Names: []string{"color"}, Scope: "E", ScopeEl: []string{"abbr"}}, {Kind: "AS", Names: []string{"width"}, Scope: "E", ScopeEl: []string{"abbr"}},
+					{Kind: "AS", Names: []string{"color", "width"}, Scope: "E", ScopeEl: []string{"span"}}, {Kind: "AS", Names: []string{"width"}, Scope: "E", ScopeEl: []string{"b"}}}},
+			{[]*bmx.Op{{Kind: "AE", Names: []string{"i"}}, {Kind: "SK", Names: []string{"u", "x-a"}}, {Kind: "AA", Names: []string{"lang", "title"}, Scope: "M", ScopeRe: re}},
+				[]*bmx.Op{{Kind: "AE", Names: []string{"i"}}, {Kind: "SK", Names: []string{"u"}}, {Kind: "AA", Names: []string{"title"}, Scope: "M", ScopeRe: re}, {Kind: "SK", Names: []string{"x-a"}}, {Kind: "AA", Names: []string{"lang"}, Scope: "M", ScopeRe: re}}},
+		}
+		for _, pr := range pairs {
+			ida, pa := c.policy(pr.grouped)
+			idb, pb := c.policy(pr.split)
+			for _, d := range docs {
+				in := []byte(d)
+				fmt.Fprintf(c.w, "perm %d %d %s %s %s\n", ida, idb, bmx.HexField(in), safeSanitize(pa, in), safeSanitize(pb, in))
+			}
+		}
+	}
 	toggleFam := func(c *ctx) {
 		hist := [][]*bmx.Op{
 			{{Kind: "DU"}, {Kind: "US", Names: []string{"DATA"}}, {Kind: "DU"}},
@@ -824,6 +938,8 @@ func init() {
 	families["perm"] = func(c *ctx) {
 		permFam(c)
 		monoFam(c)
+		directedMono(c)
+		splitFam(c)
 		toggleFam(c)
 		independence(c)
 	}
